@@ -1,7 +1,7 @@
 (* One entry point for the OCaml runner: op name and byte-string arguments
    in, (result bytes, tag text) out.  All structure is decoded here, in Coq. *)
 From Coq Require Import NArith ZArith List Bool String.
-From GJ Require Import Base.Bytes Base.Show Model.Int Model.StrEnc Model.StrDec Model.Compact Model.Iface Model.Path Model.KeyBitmap Spec.Json Gen.Resets Model.Mem.
+From GJ Require Import Base.Bytes Base.Show Model.Int Model.StrEnc Model.StrDec Model.Compact Model.Iface Model.Path Model.KeyBitmap Spec.Json Gen.Resets Model.Mem Base.TypeAddrBase Gen.TypeAddr Model.TypeCache.
 Import ListNotations.
 Open Scope N_scope.
 Open Scope string_scope.
@@ -32,6 +32,16 @@ Definition show_cres (r : cres (list N)) : list N :=
   | CFuel => str "fuel"
   | CStuck => str "stuck"
   end.
+
+Definition nthl (k : nat) (l : list (list N)) : list N := nth k l [].
+Definition parse_sample (line : list N) : sample :=
+  let f := split_on 32 line in
+  {| s_addr := dec_N (nthl 0 f); s_ptr := N.eqb (dec_N (nthl 1 f)) 1; s_elem := dec_N (nthl 2 f) |}.
+Definition parse_ta (line : list N) : typeaddr :=
+  let f := split_on 32 line in
+  {| ta_base := dec_N (nthl 0 f); ta_max := dec_N (nthl 1 f); ta_range := dec_N (nthl 2 f); ta_shift := dec_N (nthl 3 f) |}.
+Definition show_slot (s : slot) : list N :=
+  match s with Slow => str "slow" | Fast i => show_N i | Panic => str "panic" end.
 
 Definition dispatch (op : list N) (args : list (list N)) : list N * list N :=
   if list_eqb op (str "c16.enc_int") then
@@ -88,4 +98,20 @@ Definition dispatch (op : list N) (args : list (list N)) : list N * list N :=
          show_N (fold_left (fun a w => N.min a (fst w)) ws (fst w)) ++ [32] ++
          show_N (fold_left (fun a w => N.max a (fst w + snd w)) ws 0)
      end, [])
+  else if list_eqb op (str "c14.analyze") then
+    (* arg0: one line "addr isptr elem" per typelinks entry, in visiting order *)
+    (match analyze (map parse_sample (split_on 10 (arg 0 args))) with
+     | None => str "nil"
+     | Some ta => show_N (ta_base ta) ++ [32] ++ show_N (ta_max ta) ++ [32] ++ show_N (ta_range ta) ++ [32] ++ show_N (ta_shift ta)
+     end, [])
+  else if list_eqb op (str "c14.slot") then
+    (* arg0: "base max range shift" as used by the caches, arg1: address of the type descriptor,
+       arg2: build (race / norace), arg3: which sides looked the type up ("1"/"0" for encoder, decoder) *)
+    (let ta := parse_ta (arg 0 args) in
+     let p := dec_N (arg 1 args) in
+     let race := list_eqb (arg 2 args) (str "race") in
+     let e := if race then enc_race ta p else enc_norace ta p in
+     let d := if race then dec_race ta p else dec_norace ta p in
+     (if N.eqb (nth 0 (arg 3 args) 0) 49 then show_slot e else [45]) ++ [32] ++
+     (if N.eqb (nth 1 (arg 3 args) 0) 49 then show_slot d else [45]), [])
   else (str "no-model", []).
